@@ -18,7 +18,11 @@ def gen_guided(rng, r, alpha, maxlen, mode):
             ops.append(['r', rng.randrange(n)])
             continue
         if n and x < 0.16 and mode >= 2:
-            ops.append(['p', rng.randrange(n), rng.choice(alpha)] if rng.random() < 0.6 else ['q', rng.randrange(n)])
+            y = rng.random()
+            if mode >= 3 and y < 0.25:
+                ops.append([rng.choice('es'), rng.randrange(n)])
+            else:
+                ops.append(['p', rng.randrange(n), rng.choice(alpha)] if y < 0.7 else ['q', rng.randrange(n)])
             continue
         if x < 0.30:
             ops.append(['f', int(rng.random() < 0.4)])
@@ -93,7 +97,7 @@ def outcome_class(st):
 def full_obs(o):
     """everything the faithful model is compared on (pinning correspondence)"""
     return (norm_st(o['st']), bool(o['pr']), tuple(o['ord']) if isinstance(o['ord'], list) else o['ord'], tuple(o['uno']),
-            None if o.get('req') is None else tuple(o['req']))
+            None if o.get('req') is None else tuple(o['req']), tuple(sorted(set(o.get('par', [])))))
 
 
 def first_diff(impl_ops, model_ops, proj=full_obs):
